@@ -86,6 +86,13 @@ class Eval:
     def rvalue(s, P, r, dest):
         k = r["k"]
         if k == "use": return s.operand(P, r["o"])
+        if (k == "ref" or k == "rawptr") and r["p"]["proj"] and r["p"]["proj"][-1]["k"] == "index":
+            # &slice[i] (the bounds check is the preceding BoundsCheck assertion)
+            base = s.read(P, {"local": r["p"]["local"], "proj": r["p"]["proj"][:-1]})
+            iv = P.env.get(s.k(r["p"]["proj"][-1]["local"]))
+            if isinstance(base, Slice) and isinstance(iv, Poly):
+                return Elem(base.lo + iv)
+            raise Inconclusive("index projection on %r[%r]" % (base, iv))
         if k == "ref" or k == "rawptr":
             pty = s.ptype(r["p"])
             if pty.startswith("&"):      # reference to a reference-typed place
@@ -134,6 +141,25 @@ class Eval:
             if rng.variant == "RangeTo": return Slice(sl.lo, sl.lo + rng.f[0])
             if rng.variant == "Range": return Slice(sl.lo + rng.f[0], sl.lo + rng.f[1])
         raise Inconclusive("range %r" % (rng,))
+    def bounded(s, P, name, sl, rng, make):
+        """fork on the precondition of a slice access: the in-bounds paths continue with make(), the others end in a panic (a
+        checked access) / undefined behaviour (an unchecked one) - an outcome no ideal path has.  A bounds-failure path that no
+        concrete cursor state reaches is dropped by the judge (the cursor invariant makes it infeasible)."""
+        ln = sl.len()
+        if isinstance(rng, Poly): cs = [Cond("<", rng - ln)] if name != "split" else [Cond("<=", rng - ln)]
+        elif isinstance(rng, Adt) and rng.variant in ("RangeFrom", "RangeTo"): cs = [Cond("<=", rng.f[0] - ln)]
+        elif isinstance(rng, Adt) and rng.variant == "Range": cs = [Cond("<=", rng.f[0] - rng.f[1]), Cond("<=", rng.f[1] - ln)]
+        else: return make(P)
+        paths = [P]
+        for c in cs:
+            nxt = []
+            for Q0 in paths:
+                for Q, truth in s.fork_on(Q0, c):
+                    if truth: nxt.append(Q)
+                    else:
+                        s.top.results.append((Q.conds, Q.actions + [("PANIC", "bounds:" + name)], Unknown("PANIC:" + name), Q.mem["self"][0] if "self" in Q.mem else None))
+            paths = nxt
+        return ("multi", [(Q, make(Q)) for Q in paths])
     # ---- multi-path helpers
     def fork_on(s, P, cond):
         """[(path, truth)] for the feasible outcomes of a condition"""
@@ -230,12 +256,14 @@ class Eval:
             if name == "len": return sl.len()
             if name in ("split_at", "split_at_mut"):
                 P.actions.append(("checked", "split_at", repr(args[1]), repr(sl.len())))
+                if isinstance(args[1], Poly):
+                    return s.bounded(P, "split", sl, args[1], lambda Q: Tup([Slice(sl.lo, sl.lo + args[1]), Slice(sl.lo + args[1], sl.hi)]))
                 return Tup([Slice(sl.lo, sl.lo + args[1]), Slice(sl.lo + args[1], sl.hi)])
             if name in ("split_first", "split_first_mut"):
                 return Gamma(Cond("!=", sl.len()), Adt("Option", "Some", [Tup([Elem(sl.lo), Slice(sl.lo + ONE, sl.hi)])]), Adt("Option", "None", []))
             if name in ("split_last", "split_last_mut"):
                 return Gamma(Cond("!=", sl.len()), Adt("Option", "Some", [Tup([Elem(sl.hi - ONE), Slice(sl.lo, sl.hi - ONE)])]), Adt("Option", "None", []))
-            if name in ("get_unchecked", "get_unchecked_mut"): return s.subslice(sl, args[1])
+            if name in ("get_unchecked", "get_unchecked_mut"): return s.bounded(P, "get_unchecked", sl, args[1], lambda Q: s.subslice(sl, args[1]))
             if name in ("get", "get_mut"):
                 rng = args[1]
                 some = Adt("Option", "Some", [s.subslice(sl, rng)])
@@ -251,7 +279,7 @@ class Eval:
                 return Gamma(Cond("<=", args[1] - sl.len()), Adt("Option", "Some", [Tup([Slice(sl.lo, sl.lo + args[1]), Slice(sl.lo + args[1], sl.hi)])]), NONE)
         if path in ("core::ops::Index::index", "core::ops::IndexMut::index_mut") and isinstance(args[0], Slice):
             P.actions.append(("checked", "index", repr(args[1]), repr(args[0].len())))
-            return s.subslice(args[0], args[1])
+            return s.bounded(P, "index", args[0], args[1], lambda Q: s.subslice(args[0], args[1]))
         if path == "core::mem::take":
             r = args[0]
             if not isinstance(r, RefTo): raise Inconclusive("take of %r" % (r,))
@@ -351,6 +379,23 @@ class Eval:
                         s.write(Q, st["p"], val)
                         s.step(Q, bb, depth + 1, si + 1)
                     return
+            if rv["k"] == "binop" and rv["op"] in ("Sub", "SubWithOverflow", "SubUnchecked") and getattr(s.top, "method", "") in ("next", "next_back", "nth", "nth_back"):
+                # a - b on usize: when b can exceed a the subtraction panics (overflow checks on) or wraps to a huge length that the
+                # following unchecked access takes at face value: a bounds failure like any other
+                a0, b0 = s.operand(P, rv["l"]), s.operand(P, rv["r"])
+                if isinstance(a0, Poly) and isinstance(b0, Poly):
+                    cnd = Cond(">=", a0 - b0)
+                    dec = decide(P.conds, cnd)
+                    if dec is None:
+                        dec = decide(saturate(P.conds), cnd)
+                    if dec is not True:
+                        for Q, truth in s.fork_on(P, cnd):
+                            if truth:
+                                s.write(Q, st["p"], s.rvalue(Q, st["rv"], st["p"]))
+                                s.step(Q, bb, depth + 1, si + 1)
+                            else:
+                                s.top.results.append((Q.conds, Q.actions + [("PANIC", "bounds:sub")], Unknown("PANIC:sub"), Q.mem["self"][0] if "self" in Q.mem else None))
+                        return
             v = s.rvalue(P, st["rv"], st["p"])
             s.write(P, st["p"], v)
         t = bl["term"]; k = t["k"]
@@ -377,6 +422,13 @@ class Eval:
                     s.results.append((P.conds, P.actions, Poly.atom("PANIC:division by zero"), None))
                     return
             return s.step(P, t["target"], depth + 1)
+        if k == "assert" and t.get("kind") == "BoundsCheck" and getattr(s.top, "method", "") == "index":
+            c0 = s.operand(P, t["cond"])
+            if isinstance(c0, Cond):
+                for Q, truth in s.fork_on(P, c0 if t.get("expected") is not False else c0.neg()):
+                    if truth: s.step(Q, t["target"], depth + 1)
+                    else: s.top.results.append((Q.conds, Q.actions + [("PANIC", "index out of bounds")], Unknown("PANIC:index"), None))
+                return
         if k == "assert": return s.step(P, t["target"], depth + 1)    # language overflow asserts: success edge
         if k == "drop": return s.step(P, t["target"], depth + 1)
         if k == "call":
@@ -806,7 +858,11 @@ def check(facts, typ, W, selfdesc, Kval):
                         # a symbolic mismatch is only a candidate (the path may be infeasible for reasons the fact matcher does not
                         # see): report it when a concrete reachable cursor state witnesses the difference
                         wit = find_witness(m, W is C, [c for c in conds], actions, ret, final)
-                        if wit is None or wit == "unknown-atom":
+                        if wit is None and any(a[0] == "PANIC" and str(a[1]).startswith("bounds:") for a in actions):
+                            # the access is out of bounds only in cursor states that do not exist (no state with up to 4 items
+                            # of width <= 3 and gap <= 2 satisfies the path's facts): infeasible under the cursor invariant
+                            vs = [(True, cs, got, "bounds failure unreachable from any cursor state tried") if okv is False else (okv, cs, got, exp) for okv, cs, got, exp in vs]
+                        elif wit is None or wit == "unknown-atom":
                             vs = [(None, cs, got, "symbolic mismatch without a concrete witness among small cursor states (%s): undecided" % exp) if okv is False else (okv, cs, got, exp) for okv, cs, got, exp in vs]
                         else:
                             first = True
@@ -1143,6 +1199,35 @@ def r_cursor(f):
                 if okv is False:
                     cs = ", ".join(sorted(repr(c) for c in conds))
                     R.fail(ident, "path[%s]:%s" % (cs, got), "%s deviates from the ideal strided cursor on the path {%s}: got %s; %s" % (ident, cs, got, exp), b[0].where() if b else None)
+    # indexing a column cursor: `col[i]` is the i-th remaining cell, i.e. the element at offset i*(1+skip) of the cursor's slice,
+    # on every path that returns (the out-of-range paths end in the checked index's panic)
+    for typ in ("Col", "ColMut"):
+        desc, W, names = cursor_layout(f, typ)
+        for b in f.fn_bodies:
+            if b.self_head != typ or b.name not in ("index", "index_mut") or not (b.trait_head or "").startswith("Index"):
+                continue
+            nfun += 1
+            try:
+                ev_ = Eval(b.d, desc); ev_.W = W; ev_.method = "index"
+                res = ev_.run()
+            except Inconclusive as e:
+                ninc += 1
+                R.inconc(b.ident, "engine inconclusive: %s" % e)
+                continue
+            except (KeyError, IndexError, TypeError, AttributeError) as e:
+                ninc += 1
+                R.inconc(b.ident, "engine error %s: %r" % (type(e).__name__, e))
+                continue
+            want = N * (ONE + K)
+            badp = []
+            for conds, actions, ret, final in res:
+                if any(a[0] == "PANIC" for a in actions):
+                    continue
+                if not (isinstance(ret, Elem) and ret.off == want):
+                    badp.append((conds, ret))
+            R.inst(b.ident, "returns the element at offset n*(1+K) of the cursor's slice on all %d returning paths" % sum(1 for r_ in res if not any(a[0] == "PANIC" for a in r_[1])), not badp)
+            for conds, ret in badp[:1]:
+                R.fail(b.ident, "index:%r" % (ret,), "%s returns %r for index n; the n-th remaining cell of a column cursor is the element at offset n*(1+skip) = %r of its slice" % (b.ident, ret, want), b.where())
     R.require_floor(nfun, 20, "cursor update functions")
     if ninc * 4 > max(nfun, 1):
         R.fail("<rule>", "engine-broken", "%d of %d cursor functions are inconclusive: the evaluator, not the code, is broken" % (ninc, nfun))
